@@ -28,6 +28,11 @@ def main():
         env["CARGO_TARGET_DIR"] = props_gen.target_dir(ctx)
         common.sh(["cargo", "+nightly", "miri", "run", "--offline", "-q", "--", "--episodes", "0", "--modules", "none"], cwd=d, env=env, timeout=3600)
         print("built Miri targets", flush=True)
+        env = dict(common.ENV)
+        env["RUSTFLAGS"] = "-Zsanitizer=address -Cforce-frame-pointers=yes"
+        env["CARGO_TARGET_DIR"] = os.path.join(common.WORK, "target-gendrv-asan-quick")
+        common.sh(["cargo", "+nightly", "build", "--offline", "--target", "x86_64-unknown-linux-gnu"], cwd=d, env=env, timeout=3600)
+        print("built AddressSanitizer target", flush=True)
     except common.Inconclusive as e:
         print("Miri pre-build skipped:", e)
     # the evidence file written by Ctx's constructor side effects is not wanted
